@@ -43,6 +43,8 @@ int mt_sig_has_handler(int sig);
 void mt_deliver_now(int sig);		/* the calling thread receives sig now (Sd/Sx logged) */
 int mt_child_pending(int only_dead);	/* children with a queued (terminating) status change not yet reaped */
 int mt_child_reaped(int pid);		/* termination already returned by wait4 */
+int mt_child_has_pending(int pid);	/* unreaped child with a queued status change */
+extern int (*mt_reap_hold)(int pid);	/* when set and returning 1, wait4 does not report changes of this child yet */
 extern int mt_chld_thr;			/* thread that receives the SIGCHLD of mt_child_status (-1: default choice) */
 extern void (*mt_fork_hook)(int pid);	/* called in the parent right after a virtual fork (Fk logged) */
 extern void (*mt_kill_hook)(int pid, int sig);	/* called for every kill() that reached a live (unreaped) child */
